@@ -375,6 +375,27 @@ def selection_rules(repo, rep):
     else:
         rep.violated('R-AFFINE', key, w, 'skip arithmetic %s does not match the parsed layout (176-byte overview header, 176-byte sub-grid headers, 16-byte nodes)' % lits,
                      expected="[('init', 176), ('header', 176), ('node', 16)]", actual=str(lits))
+    # the node count skipped is that of the sub-grid being stepped over (the loop variable), field gs_count
+    key = base2 + 'skip-count'
+    found_skip = False
+    for lp in ast.walk(f.node):
+        if isinstance(lp, ast.For) and isinstance(lp.target, ast.Name):
+            for n in ast.walk(lp):
+                if isinstance(n, ast.AugAssign) and isinstance(n.op, ast.Add) and isinstance(n.value, ast.BinOp) and isinstance(n.value.op, ast.Mult):
+                    attrs = [x for x in (n.value.left, n.value.right) if isinstance(x, ast.Attribute)]
+                    if len(attrs) == 1 and isinstance(attrs[0].value, ast.Name):
+                        found_skip = True
+                        if attrs[0].value.id != lp.target.id:
+                            rep.violated('R-AFFINE', key, where(f, n), 'while stepping over sub-grid `%s` the offset advances by the node count of `%s`: with sub-grids of different '
+                                         'sizes the nodes of every later sub-grid are read from the wrong place' % (lp.target.id, attrs[0].value.id),
+                                         expected='%s.gs_count * 16' % lp.target.id, actual=stmt_text(n.value))
+                        elif attrs[0].attr != 'gs_count':
+                            rep.violated('R-AFFINE', key, where(f, n), 'the offset advances by %s.%s nodes; the number of nodes of a sub-grid is gs_count' % (lp.target.id, attrs[0].attr),
+                                         expected='gs_count', actual=attrs[0].attr)
+                        else:
+                            rep.holds('R-AFFINE', key, where(f, n), 'each skipped sub-grid advances the offset by its own gs_count nodes')
+    if not found_skip:
+        rep.undecided('R-AFFINE', key, w, 'no `offset += <sub-grid>.gs_count * 16` inside the sub-grid loop')
     # stencil guard for the bicubic call
     bic = [c for c in calls if c.func.attr == 'ntv2_bicubic'][0]
     key = 'R-GUARD::geodepy/ntv2reader.py::interpolate_ntv2::ntv2_bicubic-call'
